@@ -24,6 +24,7 @@ type OblResult struct {
 	FailRes  Result
 	Serves   []string
 	Disagree bool
+	exec     *Exec
 }
 
 type FuncResult struct {
@@ -187,7 +188,7 @@ func (p *Program) verifyFunc(fn *ssa.Function, fc *FuncContract, opts verifyOpts
 		jobBy[j.o] = j
 	}
 	for _, n := range names {
-		or := &OblResult{Name: n, Func: x.name, VCs: len(byName[n]), Status: "discharged"}
+		or := &OblResult{Name: n, Func: x.name, VCs: len(byName[n]), Status: "discharged", exec: x}
 		if fc != nil {
 			or.Serves = fc.Serves
 		}
